@@ -1,21 +1,19 @@
 (* Repair.v — Project.check() and Project.repair(), written path by path after
-   /repo/signac/project.py:1262-1356, on top of the lookups and Job.init of Cache.v, INCLUDING the
-   defects of the code:
-     * repair() catches only KeyError around the lookup, so the JobsCorruptedError that
-       _get_statepoint_from_workspace raises for an existing directory with a missing/undecodable
-       file ABORTS the whole repair at that job ([RAbort]);
-     * the lookup is done with validate=False and _get_statepoint stores its result in _sp_cache,
-       so an unvalidated state point is registered under the (wrong) directory name;
-     * a decodable non-mapping (1, [], "s") is treated like the state point of a misnamed directory:
-       the directory is renamed to the hash of that value; for null open_job(None) raises ValueError. *)
+   /repo/signac/project.py:1262-1356 (as of fix: bdc03b3 / 3837846), on top of the lookups and Job.init of
+   Cache.v.  Behaviour worth knowing:
+     * the loop body catches (KeyError, JobsCorruptedError, ValueError) around lookup / move / open_job: a job
+       that cannot be looked up is recorded as corrupted and the loop CONTINUES;
+     * the lookup is done with validate=False; its result is no longer stored in _sp_cache;
+     * a decodable non-mapping (1, [], "s") is treated like the state point of a misnamed directory: the
+       directory is renamed to the hash of that value, init then fails; for null open_job(None) raises the
+       ValueError that is now caught (after the rename). *)
 From SV Require Import Base Json MD5 Canon FS Ws Cache.
 
 Inductive ck := CkOk | CkCorrupt (ids : list str) | CkExn (e : exn).
 
 Inductive rr :=
 | ROk                                    (* repair() returned *)
-| RCorrupt (ids : list str)              (* the final "raise JobsCorruptedError(corrupted)" *)
-| RAbort (e : exn) (ids : list str).     (* an exception escaped from the loop *)
+| RCorrupt (ids : list str).             (* the final "raise JobsCorruptedError(corrupted)" *)
 
 Section REPAIR.
   Variable frepr : fl -> str.
@@ -80,14 +78,13 @@ Section REPAIR.
     | [] => (f, s, match corrupted with [] => ROk | _ => RCorrupt corrupted end)
     | i :: rest =>
         match get_statepoint f s false i with
-        | (s1, Err EKeyError) => repair_loop f s1 rest (corrupted ++ [i])
-        | (s1, Err e) => (f, s1, RAbort e [i])                    (* not caught by "except KeyError" *)
+        | (s1, Err _) => repair_loop f s1 rest (corrupted ++ [i])      (* KeyError / JobsCorruptedError: caught *)
         | (s1, Ok sp) =>
             match relocate f i (cid sp) with
             | None => repair_loop f s1 rest (corrupted ++ [i])    (* "Unable to fix location": continue *)
             | Some f1 =>
                 match sp with
-                | JNull => (f1, s1, RAbort EValueError [])        (* open_job(None) *)
+                | JNull => repair_loop f1 s1 rest (corrupted ++ [i])   (* open_job(None): ValueError, caught *)
                 | _ =>
                     let '(f2, s2, ok) := reinit f1 s1 sp in
                     repair_loop f2 s2 rest (if ok then corrupted else corrupted ++ [i])
@@ -107,8 +104,6 @@ Section REPAIR.
     match r with
     | ROk => CkOk
     | RCorrupt l => CkCorrupt l
-    | RAbort EJobsCorrupted l => CkCorrupt l
-    | RAbort e _ => CkExn e
     end.
 
 End REPAIR.
